@@ -166,8 +166,10 @@ Qed.
 
 Lemma cover_exec s a tr s' : R s a -> Cover s -> cexec s tr s' -> exists a', R s' a' /\ Cover s'.
 Proof.
-  intros HR HC He. revert a HR HC. induction He as [s|s l s1 tr s2 Hs He IH]; intros a HR HC; [eauto|].
-  destruct (sim_step _ _ _ _ HR Hs) as (a1 & _ & HR1). eapply IH; [exact HR1|]. eapply cover_step; eauto.
+  intros HR HC He. revert a HR HC. induction He as [s|s l s1 tr s2 Hs He IH]; intros a HR HC.
+  - exists a. split; assumption.
+  - destruct (sim_step _ _ _ _ HR Hs) as (a1 & _ & HR1).
+    apply (IH a1 HR1). exact (cover_step _ _ _ _ HR HC Hs).
 Qed.
 
 Theorem cover_reachable tr s : cexec cinit tr s -> Cover s.
